@@ -11,6 +11,9 @@ package c11
 import (
 	"context"
 	"fmt"
+	"os"
+	"os/exec"
+	"strings"
 	"testing"
 	"time"
 
@@ -267,7 +270,37 @@ func r7(w *world) {
 }
 
 func sched(name string, me sharing.ID, parties []sharing.ID, sc scenario, bound int, budget time.Duration) {
-	engine.Explore(func(x *engine.X) { run(x, me, parties, sc) }, engine.Opts{Name: name, DevBound: bound, Serial: true, Budget: budget, Procs: 16})
+	engine.Explore(func(x *engine.X) { run(x, me, parties, sc) }, engine.Opts{Name: name, DevBound: bound, Serial: true, Budget: budget, Procs: 16, Engine: "SCHED"})
+}
+
+// racePass runs the free-running -race binary (uninstrumented library, real goroutines) and reports a data race or a
+// functional failure there as a violation. It is a detector beside the deciding exploration, reported separately.
+func racePass(x *engine.X) {
+	bin := os.Getenv("VERIF_RACE_BIN")
+	if bin == "" {
+		x.Trivial()
+		x.Observe("race binary not built")
+		return
+	}
+	cmd := exec.Command(bin, "-test.count=1", "-test.timeout=20m")
+	cmd.Env = append(os.Environ(), "VERIF_CHILD=", "GORACE=halt_on_error=0")
+	out, err := cmd.CombinedOutput()
+	txt := string(out)
+	if strings.Contains(txt, "DATA RACE") {
+		i := strings.Index(txt, "DATA RACE")
+		end := i + 1500
+		if end > len(txt) {
+			end = len(txt)
+		}
+		x.Failf("race/data-race", "the race detector reported a data race in the free-running pass:\n%s", txt[i:end])
+	} else if err != nil {
+		tail := txt
+		if len(tail) > 1500 {
+			tail = tail[len(tail)-1500:]
+		}
+		x.Failf("race/functional", "the free-running pass failed: %v\n%s", err, tail)
+	}
+	x.Observe("race pass ok")
 }
 
 func TestCheck(t *testing.T) {
@@ -291,4 +324,16 @@ func TestCheck(t *testing.T) {
 	sched("R6-close", 1, p3, r6(0), b, engine.Budget(q, th))
 	sched("R6-transport-failure", 1, p3, r6(1), b, engine.Budget(q, th))
 	sched("R7-buffer-bound", 1, p3, r7, b, engine.Budget(q, th))
+	// echo broadcast with one Byzantine sender: FIFO arrival by default, other orders and preemptions cost deviations
+	eb := 1
+	if engine.Thorough() {
+		eb = 2
+	}
+	engine.Explore(func(x *engine.X) { e1(x, 3) }, engine.Opts{Name: "E1-echo-n3", DevBound: eb, Serial: true, Procs: 16, Engine: "SCHED", Budget: engine.Budget(60*time.Second, 15*time.Minute)})
+	engine.Explore(func(x *engine.X) { p1Session(x, []sharing.ID{1, 2}) }, engine.Opts{Name: "P1-session-n2", DevBound: 2 + eb, Serial: true, Procs: 16, Engine: "SCHED", Budget: engine.Budget(40*time.Second, 10*time.Minute)})
+	engine.Explore(func(x *engine.X) { p1Session(x, []sharing.ID{7, 3, 64}) }, engine.Opts{Name: "P1-session-n3", DevBound: 1 + eb, Serial: true, Procs: 16, Engine: "SCHED", Budget: engine.Budget(60*time.Second, 15*time.Minute)})
+	engine.Explore(racePass, engine.Opts{Name: "free-running-race-pass", Serial: true})
+	if engine.Thorough() {
+		engine.Explore(func(x *engine.X) { e1(x, 4) }, engine.Opts{Name: "E1-echo-n4", DevBound: 1, Serial: true, Procs: 16, Engine: "SCHED", Budget: 15 * time.Minute})
+	}
 }
